@@ -477,6 +477,7 @@ fn judge_graph_in(
         res.add("seam_events", rep.stats.events);
         if rep.stats.switches > 1 {
             res.nontrivial.push(mix(rep.digest, 0xc05));
+            res.interleaving = Some(rep.switch_digest);
         }
         for h in rep.harness_errors {
             res.harness.push(h);
